@@ -6,4 +6,4 @@ ROOT=${SEED_ROOT:-/tmp/seed}; SFX=${SEED_SUFFIX:-}
 mkdir -p /verif/seeded/$ID$SFX
 cp -r $ROOT/$ID/seed_out/* /verif/seeded/$ID$SFX/
 python3 /verif/tools/confirm_seed.py $ID $CRATE $DEMO "$@" 2>&1 | grep -E "CONFIRMED|NOT CONFIRMED"
-SELFTEST_SLOT=s python3 /verif/tools/selftest.py /verif/seeded/$ID$SFX/patch.diff $ID 2>&1 | grep -E "^(CAUGHT|MISSED|BUILD|ERROR|  )" | head -${SEED_LINES:-6}
+SELFTEST_SLOT=${SELFTEST_SLOT:-s} python3 /verif/tools/selftest.py /verif/seeded/$ID$SFX/patch.diff $ID 2>&1 | grep -E "^(CAUGHT|MISSED|BUILD|ERROR|  )" | head -${SEED_LINES:-6}
